@@ -30,7 +30,24 @@ class C03(SnapCheck):
         rng = self.rng
         quick = self.tier == "quick"
         now = framework.DEFAULT_NOW
-        out = {"datasets": [], "histories": [], "malformed": [], "trigger": [], "write-during-snapshot": []}
+        out = {"datasets": [], "histories": [], "malformed": [], "trigger": [], "write-during-snapshot": [], "trigger-after-write-during-snapshot": []}
+        # writes served while a snapshot is being written are not in it: they still count towards the next automatic
+        # snapshot (threshold reached by writes of which some or all landed between the state copy and the end of the attempt)
+        for i in range(12 if quick else 120):
+            thr = [1, 2, 3][i % 3]
+            s = Script("tw%d" % i, {"snapthreshold": thr, "snapinterval": 20})
+            for j in range(rng.randrange(1, 4)):
+                s.cmd(0, "SET", "p%d" % j, str(rng.randrange(100)))
+            during = rng.randrange(1, thr + 1)          # writes during the snapshot
+            later = rng.choice([thr - during, max(0, thr - during - 1)]) if i % 4 else thr - during
+            s.digest().raw("KW 0 %s" % " ".join(hx(a) for a in ["SET", "late", str(i)]), ["raw", "KW"])
+            for j in range(during - 1):
+                s.cmd(0, "SET", "more%d" % j, "1")       # (one command per snapshot window: the others follow the attempt)
+            for j in range(later):
+                s.cmd(0, "SET", "after%d" % j, "2")
+            s.digest().raw("Z 70", ["raw", "Z 70"]).cmd(0, "LASTSAVE").advance(3)
+            s.raw("T").digest().cmd(0, "LASTSAVE")
+            out["trigger-after-write-during-snapshot"].append(s)
         # a client served between the state copy and the encoding of a snapshot: the snapshot must hold the dataset of
         # the instant of the copy, whatever the command does to values the copy refers to (sets, sorted sets, hashes, lists)
         during = [["SADD", "s", "late"], ["SREM", "s", "m1"], ["SREM", "s", "m2", "m3"], ["SMOVE", "s", "t", "m1"], ["ZADD", "z", "9", "late"],
